@@ -37,6 +37,14 @@ def main(argv):
     faulthandler.enable()
     # Library warnings must be *observable* (C15); never let a filter hide them.
     warnings.simplefilter('default')
+    cov = None
+    if os.environ.get('VF_COVERAGE_DIR'):
+        # analysis aid only (tools/coverage_report.sh): which library lines do the workloads reach?
+        import coverage
+        from vf import core
+        cov = coverage.Coverage(data_file=os.path.join(os.environ['VF_COVERAGE_DIR'], 'cov.%s.%s' % (prop, shard)),
+                                include=[os.path.join(core.REPO, 'mitxgraders', '*')], branch=True)
+        cov.start()
     try:
         res = run_shard(prop, tier, int(seed), int(shard), int(nshards), partial_path=out + '.partial')
         res['status'] = 'done'
@@ -44,6 +52,9 @@ def main(argv):
         res = {'status': 'crashed', 'shard': int(shard),
                'error': '%s: %s' % (type(exc).__name__, exc),
                'traceback': traceback.format_exc()[-4000:]}
+    if cov is not None:
+        cov.stop()
+        cov.save()
     tmp = out + '.tmp'
     with open(tmp, 'w') as f:
         json.dump(res, f)
